@@ -15,13 +15,13 @@
    Hypotheses ([catmull_hyp]): every sub-path approximate_catmull produces
    for an osu!-mode Catmull segment of the control-point list has finite
    vertices with |c| <= 2^20 and consecutive vertices that are numerically
-   equal or at least 2^-10 apart (no underflow in the binary32 step
+   equal or at least 2^-60 apart (no underflow in the binary32 step
    lengths); those sub-paths have at most 2^30 - 1 vertices in total and the
    computed path has at most 2^30 vertices. *)
 From RM Require Import Model.ControlPoints Model.Curve Proofs.BezierRefine Proofs.FloatFacts Proofs.LengthFacts Proofs.LengthBound
   Proofs.FloatNonneg Proofs.CurveDistNonneg Proofs.PathFacts
   Proofs.AdjustExact Proofs.AdjustIEEEBase Proofs.AdjustIEEE Proofs.AdjustIEEESum Proofs.AdjustIEEELen
-  Proofs.CatmullSurplusFold Proofs.CatmullSurplusLen Proofs.CatmullSurplusLoop.
+  Proofs.CatmullSurplusFold Proofs.CatmullSurplusLen Proofs.CatmullSurplusSeg Proofs.CatmullSurplusLoop.
 From Flocq Require Import Core BinarySingleNaN.
 From Coq Require Import Reals Lra Psatz Lia List Bool.
 Import ListNotations.
@@ -33,7 +33,7 @@ Local Notation pw k := (bpow radix2 k).
 (* ---------- the hypothesis on one Catmull sub-path ---------- *)
 
 Definition cat_ok (cat : list Pos) : Prop :=
-  Forall (fun p => coord_le p 20) cat /\ segs_ok cat.
+  Forall (fun p => coord_le p 20) cat /\ csegs_ok cat.
 
 (* ---------- numerically equal vertices ---------- *)
 
